@@ -1167,6 +1167,17 @@ class Interp(object):
         raise EngineError('attribute %s of %r' % (name, v))
 
     def hasattr(self, v, name):
+        # builtin containers and scalars: exactly the attributes CPython gives them
+        if isinstance(v, tuple):
+            return hasattr((), name)
+        if isinstance(v, PyList):
+            return hasattr([], name)
+        if isinstance(v, PyDict):
+            return hasattr({}, name)
+        if v is None:
+            return hasattr(None, name)
+        if is_str(v):
+            return hasattr('', name)
         try:
             self.getattr(v, name)
             return True
